@@ -2,7 +2,7 @@ prop(
     "C07",
     pkg="c07",
     title="Control comments suppress exactly the targeted check on the targeted rules",
-    technique="property-based testing (rapid): two-run metamorphic relation (problems with comment == baseline minus targeted slice)",
+    technique="property-based testing (rapid): two-run metamorphic relation (problems with comment == baseline minus targeted slice), plus the real pint watch daemon observed across a snooze expiry",
     level="exploration",
     design_ref="DESIGN.md 2/C07",
     stages=[
